@@ -82,7 +82,7 @@ def run(ctx):
     items = ["f3", "f4", "wrap('q')", "h", "trim", "n", "x", "decode.utf8", "wrap2('a', 'b')", "wrap('q,r')", "wrap2('k', right='z')"]
     Ls = [[]]
     for n in (1, 2, 3):
-        src_items = items if (n < 2 or (n < 3 and tier == "thorough")) else (["f3", "wrap('q')", "h", "n", "trim", "wrap2('a', 'b')"] if n < 3 else ["f3", "wrap2('a', 'b')", "h", "n"])
+        src_items = items if (n < 3 or tier == "thorough") else ["f3", "wrap2('a', 'b')", "h", "n", "x"]
         Ls += [list(c) for c in itertools.product(src_items, repeat=n)]
     values = [" <a&b> ", "plain"]
     req, cases = [], []
